@@ -334,7 +334,7 @@ def step(st: B.St, ev: str) -> B.StepResult:
 
 
 def make_inits(day: dt.date):
-    """Three initial states, all produced by the real commands."""
+    """Five initial states, all produced by the real commands."""
     inits = []
     base = Z.make_zdir(BASE, "c06i")
     r = Z.db_create(base, day)
@@ -371,6 +371,18 @@ def make_inits(day: dt.date):
     s3 = B.St(path=str(p3), day=day, hist=[], guards=g3, extra={"init": "after-page-deleted-and-reindexed"})
     s3.key = H.digest([D.state_digest(p3, day), sorted(g3.items())])
     inits.append(s3)
+    # a plain reindex was refused half-way: a new page had been added and a later page is
+    # broken (whatever the refused run indexed before it stopped is in the index already)
+    p4 = Z.copy_zdir(base, tag="c06i")
+    g4: dict = {}
+    apply_edit(p4, "add_page_c", g4)
+    apply_edit(p4, "break_z", g4)
+    r = Z.db_reindex(p4, day)
+    if Z.cli_ok(r) or "has errors" not in r.err:
+        raise H.HarnessError("initial refused reindex: expected a refusal, got " + repr((r.status, r.value, r.err[-300:])))
+    s4 = B.St(path=str(p4), day=day, hist=[], guards=g4, extra={"init": "after-refused-reindex"})
+    s4.key = H.digest([D.state_digest(p4, day), sorted(g4.items())])
+    inits.append(s4)
     return inits
 
 
@@ -387,9 +399,10 @@ def run(ctx: F.Ctx):
         total.merge(rep)
     meta = {
         "rule": (
-            "BFS from 4 initial states (indexed two-page directory; same with a ZID-less note "
+            "BFS from 5 initial states (indexed four-page directory; same with a ZID-less note "
             "pending; same after an earlier stamped edit; same after a page was deleted and the "
-            "index followed) over 18 events: edit a body, change a "
+            "index followed; same after a new page was added, the last page broken and a plain "
+            "reindex refused) over 18 events: edit a body, change a "
             "todo's kind, add a ZID-less note, delete a note, move a note between pages, add a page, "
             "delete a page, rename a page, bring the vanished page back byte-identical, edit title-line tags, edit a section header, drop the "
             "last holder of a tag, plain reindex, reindex of one explicit path, advance the day. "
@@ -399,7 +412,7 @@ def run(ctx: F.Ctx):
             "structural invariants of M3, and 12 queries answered identically by both. Non-trivial "
             "= judged states whose history contains at least one edit."
         ),
-        "bounds": {"depth": depth, "depth_from_derived_initial_states": depth - 1, "events": EVENTS, "initial_states": 4, "frozen_day": day.isoformat()},
+        "bounds": {"depth": depth, "depth_from_derived_initial_states": depth - 1, "events": EVENTS, "initial_states": 5, "frozen_day": day.isoformat()},
         "assumptions": ["edits are the listed deterministic text transformations of one small directory",
                         "states reached by a path-restricted reindex are judged at the next plain reindex, as the statement says"],
         "exhaustive": True,
